@@ -1,6 +1,7 @@
 import CookModel.Analysis.Collector
 import CookModel.Lemmas.Text
 import CookModel.Lemmas.LexLaws
+import CookModel.Lemmas.Roundtrip
 /-
   C01  Printing a recipe as Cooklang and parsing it returns that recipe.
 
@@ -150,5 +151,95 @@ example : ¬ WellSpelled toyCharSpec [⟨.word, ['a', 'b'], 0⟩, ⟨.word, ['c'
 example : ¬ WellSpelled toyCharSpec [⟨.minus, ['-'], 0⟩, ⟨.minus, ['-'], 1⟩] := by decide
 example : ¬ WellSpelled toyCharSpec [⟨.int, ['0', '1'], 0⟩] := by decide
 example : WellSpelled toyCharSpec [⟨.zeroInt, ['0', '1'], 0⟩, ⟨.dot, ['.'], 2⟩, ⟨.int, ['5'], 3⟩] := by decide
+
+/-! ### the value layer: `spellVal` is read back by the value parser
+
+  `AVal`, `spellVal`, `VPad` are in Print/Printer.lean.  A statement about "the tokens of a
+  spelling" is a statement about every token list `ts` with `Spells ts (spellVal v p)`: the same
+  kinds and texts, whatever the positions (by `C01_lex_render` these are the tokens the lexer
+  produces from the rendered spelling). -/
+
+/-- Every numeric value — integer `12`, decimal `12.05` or `.5`, fraction `1/2`, mixed number
+    `1 1/2`, and with RANGE_VALUES a range `lo-hi` of those — spelled with arbitrary whitespace /
+    block-comment padding at both ends, around `/`, after the whole part and around the `-`
+    (`VPad`), is read by `numeric_value`/`range_value` as exactly the number it denotes: the
+    decimal with those digits (`Arith.ofDecimal`), the fraction with `err = 0`.  Hypotheses: the
+    parts of a fraction fit `u32` and the denominator is not 0 (`AVal.ok`); a range needs the
+    extension.  Holds for both arithmetic instances (`α` arbitrary). -/
+theorem C01_value_roundtrip {α : Type} [Arith α] (cs : CharSpec) (v : AVal) (p : VPad)
+    (hv : v.ok cs = true) (hp : p.ok cs = true) (hnum : v.isText = false)
+    (rangeExt : Bool) (hr : v.isRange = true → rangeExt = true)
+    (ts : List Tok) (hs : Spells ts (spellVal v p)) :
+    numOrRange (α := α) rangeExt ts = some (.ok v.denote) :=
+  rt_numOrRange v p hv hp hnum rangeExt hr ts hs
+
+/-- … and `parse_value` returns it located at ⟨start of the first token, current offset⟩,
+    pushes no diagnostic and leaves the parser state untouched. -/
+theorem C01_value_parse_numeric {α : Type} [Arith α] (v : AVal) (p : VPad) (s : BP α)
+    (hv : v.ok s.cs = true) (hp : p.ok s.cs = true) (hnum : v.isText = false)
+    (hr : v.isRange = true → s.ext.has Gen.EXT_RANGE_VALUES = true)
+    (ts : List Tok) (hs : Spells ts (spellVal v p)) :
+    parseValue ts s = (⟨v.denote, ⟨valStart ts s, offAt s.toks s.cur⟩⟩, s) :=
+  parseValue_num_run ts s _ (rt_numOrRange v p hv hp hnum _ hr ts hs)
+
+/-- A text value — words (any visible tokens except `/ . - % = { }`, e.g. `a pinch`, `2 heaped`,
+    `1st`) separated by single spaces, not a lone integer — padded with blanks at both ends is
+    read by `parse_value` as the text value with exactly that string (the padding is trimmed, no
+    space is collapsed), with no "empty value" error and no other diagnostic, under every
+    extension set.  `RunAt` (adjacent tokens) is what the lexer guarantees. -/
+theorem C01_value_text_roundtrip {α : Type} [Arith α] (l : List Tok) (p : VPad) (s : BP α)
+    (hv : (AVal.text l).ok s.cs = true) (hp : p.ok s.cs = true)
+    (ts : List Tok) (hs : Spells ts (spellVal (.text l) p)) (off : Nat) (hrun : RunAt off ts) :
+    parseValue ts s = (⟨(AVal.text l).denote, ⟨valStart ts s, offAt s.toks s.cur⟩⟩, s) := by
+  simp only [AVal.ok, Bool.and_eq_true] at hv
+  simp only [VPad.ok, Bool.and_eq_true] at hp
+  obtain ⟨⟨⟨⟨⟨hpre, hpost⟩, -⟩, -⟩, -⟩, -⟩ := hp
+  have hs0 := hs
+  simp only [spellVal] at hs
+  obtain ⟨r1, post, rfl, hs1, hpost'⟩ := hs.append_inv
+  obtain ⟨pre, tl, rfl, hpre', htl⟩ := hs1.append_inv
+  have hnn := rt_text_not_numeric (α := α) l hv.1 hv.2 pre tl post htl
+    (padOK_blank (hpre'.padOK_of hpre)) (padOK_blank (hpost'.padOK_of hpost)) (s.ext.has Gen.EXT_RANGE_VALUES)
+  obtain ⟨h1, h2⟩ := rt_leaf_text (cs := s.cs) hs0 hpre hpost hv.1 (valStart (pre ++ tl ++ post) s)
+  rw [parseValue_text_run _ s hrun hnn h2, h1]
+  rfl
+
+/-- `01` never starts a number: a value whose first non-blank token is a `ZeroInt` is not numeric
+    (it is read as text) — the printer therefore never writes an integer with a leading zero. -/
+theorem C01_value_zeroInt_not_number {α : Type} [Arith α] (pre rest : List Tok) (z : Tok) (hz : z.kind = .zeroInt)
+    (hpre : ∀ t ∈ pre, BlankT t) (rangeExt : Bool) :
+    numOrRange (α := α) rangeExt (pre ++ z :: rest) = none :=
+  rt_zeroInt_numOrRange pre rest z hz hpre rangeExt
+
+/-- without RANGE_VALUES the spelling of a range is not numeric (`parse_value` reads it as a text
+    value) — the printer writes ranges only when the extension is on. -/
+theorem C01_value_range_off_is_text {α : Type} [Arith α] (cs : CharSpec) (lo hi : ANum) (p : VPad) (hp : p.ok cs = true)
+    (ts : List Tok) (hs : Spells ts (spellVal (.range lo hi) p)) :
+    numOrRange (α := α) false ts = none :=
+  rt_range_off lo hi p hp ts hs
+
+/-! examples (non-vacuity): `[- c -] 1 1 / 2`, the range `1.5 - 2/3`, the text `2 heaped` -/
+def C01_exPad : VPad :=
+  { pre := [tk .blockComment "[- c -]".toList, tk .ws [' ']], post := [tk .ws ['\t']],
+    lo := { w := [tk .ws [' ']], a := [tk .ws [' ']], b := [tk .ws [' ']] },
+    m1 := [tk .ws [' ']], m2 := [tk .ws [' ']] }
+
+def C01_exMixed : AVal := .num (.mixed ['1'] ['1'] ['2'])
+def C01_exRange : AVal := .range (.dec ['1'] ['5']) (.frac ['2'] ['3'])
+def C01_exText : AVal := .text [tk .int ['2'], tk .ws [' '], tk .word "heaped".toList]
+
+example : C01_exPad.ok toyCharSpec = true := by decide
+example : C01_exMixed.ok toyCharSpec = true ∧ C01_exRange.ok toyCharSpec = true ∧ C01_exText.ok toyCharSpec = true := by
+  decide
+example : numOrRange (α := Rat) false (spellVal C01_exMixed C01_exPad) =
+    some (.ok (.number (.fraction 1 1 2 (Arith.ofNat 0)))) :=
+  C01_value_roundtrip toyCharSpec _ _ (by decide) (by decide) rfl false (by decide) _ rfl
+example : (AVal.denote (α := Rat) C01_exText) = .text "2 heaped".toList := by decide
+/-- the side conditions are needed: `1/0` is an error, a lone integer is a number, two spaces are
+    collapsed -/
+example : numericValue (α := Rat) (spellVal (.num (.frac ['1'] ['0'])) {}) =
+    some (.error ⟨.error, .parse, "division-by-zero", [⟨0, 1⟩]⟩) := by rfl
+example : (AVal.text [tk .int ['2']]).ok toyCharSpec = false := by decide
+example : (AVal.text [tk .word ['a'], tk .ws [' '], tk .ws [' '], tk .word ['b']]).ok toyCharSpec = false := by decide
 
 end Cook
